@@ -57,15 +57,15 @@ type Step struct {
 type TestKind int
 
 const (
-	TName    TestKind = iota // prefix:local or local
-	TAny                     // *
-	TNSAny                   // prefix:*
-	TLocalAny                // *:local
-	TNode                    // node()
-	TText                    // text()
-	TComment                 // comment()
-	TPI                      // processing-instruction()
-	TPITarget                // processing-instruction('t')
+	TName     TestKind = iota // prefix:local or local
+	TAny                      // *
+	TNSAny                    // prefix:*
+	TLocalAny                 // *:local
+	TNode                     // node()
+	TText                     // text()
+	TComment                  // comment()
+	TPI                       // processing-instruction()
+	TPITarget                 // processing-instruction('t')
 )
 
 type Test struct {
@@ -109,7 +109,7 @@ func prec(op string) int {
 
 // RenderOpts controls the concrete spelling.
 type RenderOpts struct {
-	FullParens bool                // parenthesise every binary/unary sub-expression
+	FullParens bool                  // parenthesise every binary/unary sub-expression
 	WS         func(slot int) string // optional whitespace at token boundaries (nil = minimal)
 }
 
